@@ -587,6 +587,10 @@ pub enum InAct {
 
 #[derive(Serialize, Deserialize, Debug, Clone, Hash, PartialEq, Eq)]
 pub struct InCase {
+    /// earlier block_on() calls on the SAME loop, each returned before the judged call starts: true = its future is ready
+    /// at once (Some), false = a callback stops it (None). What they leave behind must not leak into the next call.
+    #[serde(default)]
+    pub prelude: Vec<bool>,
     pub block_on: bool,
     /// one entry per loop iteration: what the (re-armed) timer callback of that iteration does, in order
     pub rounds: Vec<Vec<InAct>>,
@@ -594,7 +598,8 @@ pub struct InCase {
 
 fn in_strategy() -> impl Strategy<Value = InCase> {
     let act = prop_oneof![3 => Just(InAct::Stop), 3 => Just(InAct::Complete), 4 => Just(InAct::Wake), 1 => Just(InAct::Wakeup), 2 => Just(InAct::Idle)];
-    (any::<bool>(), proptest::collection::vec(proptest::collection::vec(act, 0..=4), 1..=5)).prop_map(|(block_on, rounds)| InCase { block_on, rounds })
+    (proptest::collection::vec(any::<bool>(), 0..=2), any::<bool>(), proptest::collection::vec(proptest::collection::vec(act, 0..=4), 1..=5))
+        .prop_map(|(prelude, block_on, rounds)| InCase { prelude, block_on, rounds })
 }
 
 struct InFut {
@@ -658,6 +663,37 @@ pub fn run_inloop(case: &InCase) -> CaseOutcome {
     let mut el: EventLoop<'static, ()> = EventLoop::try_new().expect("event loop");
     let signal = el.get_signal();
     let handle = el.handle();
+    let mut prelude_viol: Option<Violation> = None;
+    for (k, ready_at_once) in case.prelude.iter().enumerate() {
+        let polls = Arc::new(AtomicU32::new(0));
+        let fut = InFut { complete: Arc::new(AtomicBool::new(*ready_at_once)), waker: Arc::new(Mutex::new(None)), polls: polls.clone() };
+        if !*ready_at_once {
+            let sig = signal.clone();
+            handle
+                .insert_source(calloop::timer::Timer::immediate(), move |_, _, _| {
+                    sig.stop();
+                    calloop::timer::TimeoutAction::Drop
+                })
+                .expect("insert prelude timer");
+        }
+        // last resort (removed again right after): a call that never polls its future would sleep for ever
+        let sig = signal.clone();
+        let rescue = handle
+            .insert_source(calloop::timer::Timer::from_duration(Duration::from_millis(300)), move |_, _, _| {
+                sig.stop();
+                calloop::timer::TimeoutAction::Drop
+            })
+            .expect("insert rescue timer");
+        let r = el.block_on(fut, &mut (), |_| {}).map_err(|e| format!("{e}"));
+        handle.remove(rescue);
+        let want = if *ready_at_once { Some(4242) } else { None };
+        if r != Ok(want) && prelude_viol.is_none() {
+            prelude_viol = Some(Violation::new("C11.block_on_result", format!("block_on call #{} on the same loop returned {r:?}, expected {want:?}", k + 1)).with_sig("C11.block_on_result/inloop"));
+        }
+        if polls.load(Ordering::SeqCst) == 0 && prelude_viol.is_none() {
+            prelude_viol = Some(Violation::new("C11.block_on_wake", format!("block_on call #{} on the same loop never polled its future", k + 1)).with_sig("C11.block_on_wake/inloop"));
+        }
+    }
     let complete = Arc::new(AtomicBool::new(false));
     let waker: Arc<Mutex<Option<Waker>>> = Arc::new(Mutex::new(None));
     let polls = Arc::new(AtomicU32::new(0));
@@ -720,7 +756,13 @@ pub fn run_inloop(case: &InCase) -> CaseOutcome {
     if same_round {
         info.classes.push("inloop_stop_and_wake_or_idle_in_one_callback");
     }
+    if !case.prelude.is_empty() {
+        info.classes.push("inloop_after_an_earlier_block_on_on_the_same_loop");
+    }
     let viol = (|| {
+        if let Some(v) = prelude_viol {
+            return Some(v);
+        }
         let got = match got {
             Ok(g) => g,
             Err(e) => return Some(Violation::new("C11.inloop", format!("loop returned an error: {e}"))),
